@@ -567,3 +567,75 @@ def replay_c06(run, behs, seed, limit=None):
             run.sample({"file_as_class_symbols": "".join(b["text"]), "fault": b["fault"]})
     finally:
         subprocess.run(["rm", "-rf", base])
+
+
+# ---------------------------------------------------------------- CMinx.tla: the pipeline as one machine
+FILE_BODY = {"ok": "#[[[\n# doc of {n}\n#]]\nfunction({n} a)\nendfunction()\n",
+             "lexfault": "#[[[\n# doc of {n}\n#]]\nfunction({n} a \\q)\nendfunction()\n",
+             "parsefault": "#[[[\n# doc of {n}\n#]]\nfunction({n} a)\nendfunction()\nmessage(unclosed\n",
+             "parsefault_swallowed": "#[[[\n# doc of {n}\n#]]\nfunction({n} a)\nendfunction()\nstray_word\n"}
+
+
+def pipeline_case(beh, sandbox):
+    import naming
+    d = os.path.join(sandbox, "proj")
+    os.makedirs(d)
+    home = os.path.join(sandbox, "home")
+    os.makedirs(os.path.join(home, ".config", "cminx"))
+    names = []
+    for j, kind in enumerate(beh["files"], 1):
+        nm = "f%02d" % j
+        names.append(nm)
+        with open(os.path.join(d, nm + ".cmake"), "w") as fh:
+            fh.write(FILE_BODY[kind].format(n=nm))
+    out = os.path.join(sandbox, "out")
+    if beh["mode"] == "directory":
+        exc, _ = naming.run_main(["-o", out, d], sandbox, home)
+    else:
+        exc, _ = naming.run_main(["-o", out] + [os.path.join(d, n + ".cmake") for n in names], sandbox, home)
+    failed = exc is not None and not exc.startswith("SystemExit: 0") and not exc.startswith("SystemExit: None")
+    written = sorted(j for j, n in enumerate(names, 1) if os.path.exists(os.path.join(out, n + ".rst")))
+    return {"failed": failed, "written": written, "index": os.path.exists(os.path.join(out, "index.rst")), "exc": exc}
+
+
+def _chunk_pipe(args):
+    import subprocess
+    chunk, base = args
+    out = []
+    for n, beh in chunk:
+        sb = os.path.join(base, "p%d_%d" % (os.getpid(), n))
+        os.makedirs(sb)
+        try:
+            out.append((n, pipeline_case(beh, sb)))
+        finally:
+            subprocess.run(["rm", "-rf", sb])
+    return out
+
+
+def replay_pipeline(run, behs):
+    import subprocess
+    base = tempfile.mkdtemp(prefix="verif_pipe_", dir="/dev/shm" if os.path.isdir("/dev/shm") else None)
+    try:
+        items = list(enumerate(behs))
+        chunks = [(items[i::lib.NCPU * 2], base) for i in range(lib.NCPU * 2)]
+        chunks = [c for c in chunks if c[0]]
+        with ProcessPoolExecutor(max_workers=lib.NCPU, initializer=_init, initargs=(lib.CMINX_SRC,)) as ex:
+            for part in ex.map(_chunk_pipe, chunks):
+                for n, obs in part:
+                    beh = behs[n]
+                    run.behaviours += 1
+                    run.count("pipeline:" + json.dumps([beh["mode"], beh["files"]]))
+                    faulty = [j for j, k in enumerate(beh["files"], 1) if k != "ok"]
+                    case = {"mode": beh["mode"], "files": beh["files"], "features": {"pipeline_model": True}}
+                    if faulty and (not obs["failed"] or any(j in obs["written"] for j in faulty)):
+                        run.violation(case, {"failed": True, "no_page_for": faulty}, obs,
+                                      "a run over a faulty file does not fail, or writes a page for the faulty file")
+                    elif not faulty and (obs["failed"] or obs["written"] != list(range(1, len(beh["files"]) + 1))):
+                        run.violation(case, {"failed": False, "written": list(range(1, len(beh["files"]) + 1))}, obs,
+                                      "a run over valid files fails or does not write every page")
+                    elif obs["written"] != sorted(beh["written"]) or obs["failed"] != (beh["status"] == "failed"):
+                        run.drifted({"pipeline": case, "model": {"written": beh["written"], "status": beh["status"]}, "observed": obs})
+        if behs:
+            run.sample({"pipeline_run": behs[len(behs) // 2]})
+    finally:
+        subprocess.run(["rm", "-rf", base])
